@@ -113,6 +113,26 @@ theorem anchored_ops_local (f : Heap.Addr) :
    fun _ _ _ => (Heap.runProg_local f _).1, fun _ _ _ _ _ => (Heap.runProg_local f _).1,
    fun _ _ _ => (Heap.runProg_local f _).1⟩
 
+/-- `(a,b);` on the heap: Tree struct 13 [root 0, tip index 12]; root 0 [comments 1, neigh 2, br 3];
+    tips 4 and 8; branches 14 and 17 [left, right, comments, bitset] -/
+def exCells : List (Nat × List Nat) :=
+  [(13, [0, 12]), (12, []), (0, [1, 2, 3]), (1, []), (2, [4, 8]), (3, [14, 17]),
+   (4, [5, 6, 7]), (5, []), (6, [0]), (7, [14]), (8, [9, 10, 11]), (9, []), (10, [0]), (11, [17]),
+   (14, [0, 4, 15, 16]), (15, []), (16, []), (17, [0, 8, 18, 19]), (18, []), (19, [])]
+
+def exTree : T := .node ⟨"", []⟩ 0 [(EdgeD.blank, T.leaf "a"), (EdgeD.blank, T.leaf "b")]
+
+/- a whole run of the copy program on that heap (kernel-evaluated): 18 cells are allocated (20 … 37), the
+   copy's root 20 is wired [21, 22, 23], its neighbours are the two new tips 27 and 34, the first new branch
+   24 joins 20 and 27; the structure below 20 is the structure below the source's root 0 up to renaming;
+   and no cell of the source has changed -/
+example :
+    let h0 := Heap.ofCells exCells
+    let h1 := Heap.exec 13 h0.next (Heap.cloneOpsAt Gotree.Gen.C15.fields exTree [0] true) h0
+    h0.next = 20 ∧ h1.next = 38 ∧ h1.ptrs 20 = [21, 22, 23] ∧ h1.ptrs 22 = [27, 34] ∧ h1.ptrs 24 = [20, 27, 25, 26] ∧
+    Heap.isoFrom h1 20 exCells 0 = true ∧ (List.range 20).all (fun a => h1.ptrs a == h0.ptrs a) = true := by
+  decide +kernel
+
 /-- pinned variant of the plan (own breakage "CopyNode shares the comment slice"): the copy stores a
     path INTO THE SOURCE for its comment array, so the copy program is not one that stores only its
     own cells -/
